@@ -17,7 +17,8 @@
       evalpy   → ok i:<int> | ok b:<0|1> | ok f:<n> | out | tagmismatch      (Tranp.Emit.pyEval over Lean's Float)
       evalcpp  → ok <int> | ok f:<n> | ub | unsupported | noparse           (cEvalX of parseX (emitted tokens))
   statements  (<block> = B <n> <stmt>{n};  <stmt> = A <var id> <hexname> <hextype> <node> | R <node> | W <node> <block>
-                                                      | I <k> (<node> <block>){k} <0|1 has else> <block>):
+                                                      | I <k> (<node> <block>){k} <0|1 has else> <block>
+                                                      | F <var id> <hexname> <begin node> <stop node> <step node> <block>):
       stmtemit TAB <param ids> TAB <block>                       → ok <hex line>|<hex line>|…   (emitLines typeOf (annotate params block);
                                                                     typeOf e = the <hextype> given with the assignment of e)
       stmtpy   TAB <param id>=<int> … TAB <lits: env syntax> TAB <fuel> TAB <block>   → scope=<scopeOK> py=<ret n | end | out>   (pyExec)
@@ -259,6 +260,13 @@ partial def parseStmt : List String → Option (Stmt × List (Node × Str) × Li
   | "W" :: rest => match parseNode rest with
     | some (c, r) => (parseBlock r).map fun (b, ty, r') => (.while_ c b, ty, r')
     | none => none
+  | "F" :: v :: name :: rest => match v.toNat?, Str.unhex name, parseNode rest with
+    | some i, some nm, some (b0, r0) => match parseNode r0 with
+      | some (s0, r1) => match parseNode r1 with
+        | some (t0, r2) => (parseBlock r2).map fun (b, ty, r') => (.forRange i nm b0 s0 t0 b, ty, r')
+        | none => none
+      | none => none
+    | _, _, _ => none
   | "I" :: k :: rest => match k.toNat? with
     | some (kk + 1) => match parseArms kk rest with
       | some (arms, ty1, he :: r) => (parseBlock r).map fun (els, ty2, r') => (.ifs arms (he == "1") els, ty1 ++ ty2, r')
